@@ -1,8 +1,331 @@
-//! C13 observations (see props/c13.py for the consumer).
+//! C13 observations: Beam setter histories, Snell conversions, unit conversions, automatic waist position
+//! (see props/c13.py for the consumer).
+//!
+//! usage: vharness c13 <seed> <n_hist> <n_snell>
+//!   kind "hist":  one history: constructor arguments, then for every step the op, its arguments and the full state after it
+//!   kind "snell": set_theta_external(theta_e) / theta_external() round trip with the index at the stored internal angle
+//!   kind "unit":  unit conversions; kind "waist": optimal_waist_position
 #![allow(unused_imports, dead_code)]
 use crate::common::*;
-use serde_json::json;
+use serde_json::{json, Value};
+use spdcalc::beam::*;
+use spdcalc::dim::ucum::{DEG, HZ, K, M, RAD, S};
+use spdcalc::math::{fwhm_to_sigma, fwhm_to_waist, normalize_angle, normalize_angle_signed, waist_to_fwhm};
+use spdcalc::na::{Unit, Vector3};
+use spdcalc::utils::*;
+use spdcalc::*;
+use std::f64::consts::PI;
 
-pub fn run(_args: &[String]) {
-  emit(json!({"kind": "not_implemented", "property": "C13"}));
+fn pol_name(p: PolarizationType) -> &'static str {
+  match p {
+    PolarizationType::Ordinary => "o",
+    PolarizationType::Extraordinary => "e",
+  }
 }
+
+fn state(b: &Beam) -> Value {
+  let d = b.direction().into_inner();
+  json!({
+    "phi": fx(*(b.phi() / RAD)), "theta": fx(*(b.theta_internal() / RAD)),
+    "dir": [fx(d.x), fx(d.y), fx(d.z)],
+    "omega": fx(*(b.frequency() / (RAD / S))), "lambda": fx(*(b.vacuum_wavelength() / M)),
+    "pol": pol_name(b.polarization()), "waist": fx(*(b.waist().x / M)), "waist_y": fx(*(b.waist().y / M)),
+  })
+}
+
+/// angle arguments: ordinary, +-400 deg, multiples of pi, tiny, huge
+fn angle_arg(rng: &mut Rng) -> f64 {
+  match rng.below(12) {
+    0 => 0.0,
+    1 => *rng.pick(&[PI, -PI, 2.0 * PI, -2.0 * PI, PI / 2.0, -PI / 2.0, 3.0 * PI, -3.0 * PI, 4.0 * PI]),
+    2 => *rng.pick(&[1e-20, -1e-20, 1e-300, -1e-300, 5e-324, -5e-324, -0.0]),
+    3 => *rng.pick(&[1e6, -1e6, 1e15, -1e15, 1e300, -1e300, 123456.789]),
+    4 => (rng.below(9) as f64 - 4.0) * 2.0 * PI + rng.range(-1e-9, 1e-9),
+    5 => PI + rng.range(-1e-12, 1e-12) * (rng.below(3) as f64),
+    6 | 7 => rng.range(-400.0, 400.0) * PI / 180.0,
+    _ => rng.range(-PI, PI),
+  }
+}
+
+fn setup_of(crystal: &CrystalType, theta: f64, phi: f64) -> CrystalSetup {
+  CrystalSetup {
+    crystal: crystal.clone(),
+    pm_type: PMType::Type2_e_eo,
+    theta: theta * RAD,
+    phi: phi * RAD,
+    length: 2e-3 * M,
+    temperature: from_celsius_to_kelvin(20.0),
+    counter_propagation: false,
+  }
+}
+
+/// in-window wavelength range of a crystal (C01 owns the window itself; guard against degenerate declarations)
+fn window(crystal: &CrystalType) -> (f64, f64) {
+  match crystal.get_meta().transmission_range {
+    Some(r) if r.0 > 1e-8 && r.1 > r.0 => (r.0 + 0.03 * (r.1 - r.0), r.1 - 0.03 * (r.1 - r.0)),
+    _ => (0.5e-6, 1.6e-6),
+  }
+}
+
+fn pol_of(x: f64) -> PolarizationType {
+  if x == 0.0 { PolarizationType::Ordinary } else { PolarizationType::Extraordinary }
+}
+
+/// run one recorded history: constructor arguments, then the ops in order; every intermediate state is printed
+#[allow(clippy::too_many_arguments)]
+fn execute(id: usize, cid: &str, setup: &CrystalSetup, pol: PolarizationType, phi0: f64, theta0: f64, lambda0: f64, waist0: f64,
+           ops: &[(String, Vec<f64>)]) {
+  let mut beam = Beam::new(pol, phi0 * RAD, theta0 * RAD, lambda0 * M, waist0 * M);
+  let mut steps: Vec<Value> = vec![];
+  let mut panicked: Option<String> = None;
+  for (name, args) in ops.iter() {
+    let before = beam.clone();
+    let a = args.clone();
+    let st = setup.clone();
+    let nm = name.clone();
+    // what the Snell inversion returns on the state the setter sees (the "requested" internal angle of this step)
+    let snell_internal = if name == "set_theta_external" {
+      guarded({ let bb = beam.clone(); let st = setup.clone(); let a0 = args[0];
+        move || *(Beam::calc_internal_theta_from_external(&bb, a0.abs() * RAD, &st) / RAD) }).ok()
+    } else {
+      None
+    };
+    let r = guarded(move || {
+      let mut b = before;
+      match nm.as_str() {
+        "set_phi" => { b.set_phi(a[0] * RAD); }
+        "set_theta_internal" => { b.set_theta_internal(a[0] * RAD); }
+        "set_angles" => { b.set_angles(a[0] * RAD, a[1] * RAD); }
+        "set_theta_external" => { b.set_theta_external(a[0] * RAD, &st); }
+        "set_vacuum_wavelength" => { b.set_vacuum_wavelength(a[0] * M); }
+        "set_frequency" => { b.set_frequency(a[0] * RAD / S); }
+        "set_polarization" => { b.set_polarization(pol_of(a[0])); }
+        "set_waist" => { b.set_waist(a[0] * M); }
+        "with_polarization" => { b = b.with_polarization(pol_of(a[0])); }
+        "into_pump" => { b = PumpBeam::from(b).as_beam(); }
+        _ => {}
+      }
+      b
+    });
+    match r {
+      Ok(b) => {
+        beam = b;
+        let extra = if name == "set_theta_external" { json!({"snell_internal": snell_internal.map(fx)}) } else { json!({}) };
+        steps.push(json!({"op": name, "args": fxs(args), "after": state(&beam), "extra": extra}));
+      }
+      Err(msg) => {
+        steps.push(json!({"op": name, "args": fxs(args), "panic": msg}));
+        panicked = Some(name.to_string());
+        break;
+      }
+    }
+  }
+  emit(json!({
+    "kind": "hist", "id": id, "crystal": cid, "ct": fx(*(setup.theta / RAD)), "cp": fx(*(setup.phi / RAD)),
+    "init": {"pol": pol_name(pol), "phi": fx(phi0), "theta": fx(theta0), "lambda": fx(lambda0), "waist": fx(waist0)},
+    "init_state": state(&Beam::new(pol, phi0 * RAD, theta0 * RAD, lambda0 * M, waist0 * M)),
+    "steps": steps, "panicked": panicked,
+  }));
+}
+
+fn history(rng: &mut Rng, id: usize, crystals: &[(String, CrystalType)]) {
+  let pols = [PolarizationType::Ordinary, PolarizationType::Extraordinary];
+  let (cid, crystal) = rng.pick(crystals).clone();
+  let (wlo, whi) = window(&crystal);
+  let setup = setup_of(&crystal, rng.range(0.3, 1.4), rng.range(0.0, 2.0 * PI));
+  let pol = *rng.pick(&pols);
+  let (phi0, theta0) = (angle_arg(rng), angle_arg(rng));
+  let lambda0 = rng.log_range(wlo, whi);
+  let waist0 = rng.log_range(1e-6, 1e-2);
+  let n = 1 + rng.below(50);
+  let mut ops: Vec<(String, Vec<f64>)> = vec![];
+  for _ in 0..n {
+    let which = rng.below(11);
+    let (name, args): (&str, Vec<f64>) = match which {
+      0 => ("set_phi", vec![angle_arg(rng)]),
+      1 => ("set_theta_internal", vec![angle_arg(rng)]),
+      2 => ("set_angles", vec![angle_arg(rng), angle_arg(rng)]),
+      3 => ("set_theta_external", vec![rng.range(-80.0, 80.0) * PI / 180.0]),
+      4 => ("set_vacuum_wavelength", vec![rng.log_range(wlo, whi)]),
+      5 => ("set_frequency", vec![2.0 * PI * 299792458.0 / rng.log_range(wlo, whi)]),
+      6 => ("set_polarization", vec![rng.below(2) as f64]),
+      7 => ("set_waist", vec![rng.log_range(1e-7, 1e-1)]),
+      8 => ("with_polarization", vec![rng.below(2) as f64]),
+      9 => ("into_pump", vec![]),
+      _ => ("set_phi", vec![angle_arg(rng)]),
+    };
+    ops.push((name.to_string(), args));
+  }
+  execute(id, &cid, &setup, pol, phi0, theta0, lambda0, waist0, &ops);
+}
+
+fn hexf(v: &Value) -> f64 {
+  f64::from_bits(u64::from_str_radix(v.as_str().unwrap_or("0x0").trim_start_matches("0x"), 16).unwrap_or(0))
+}
+
+/// vharness c13 replay '<json>': {"kind": "hist", crystal, ct, cp, init: {pol, phi, theta, lambda, waist}, ops: [{op, args}]}
+/// or {"kind": "snell", crystal, pol, ct, cp, lambda, bphi, te}   (floats as 0x… bit patterns)
+fn replay(js: &str, crystals: &[(String, CrystalType)]) {
+  let v: Value = match serde_json::from_str(js) {
+    Ok(v) => v,
+    Err(_) => return,
+  };
+  let cid = v["crystal"].as_str().unwrap_or("");
+  let crystal = match crystals.iter().find(|c| c.0 == cid) {
+    Some(c) => c.1.clone(),
+    None => return,
+  };
+  let pol_str = |x: &Value| if x.as_str() == Some("o") { PolarizationType::Ordinary } else { PolarizationType::Extraordinary };
+  if v["kind"] == "hist" {
+    let setup = setup_of(&crystal, hexf(&v["ct"]), hexf(&v["cp"]));
+    let init = &v["init"];
+    let ops: Vec<(String, Vec<f64>)> = v["ops"].as_array().cloned().unwrap_or_default().iter()
+      .map(|o| (o["op"].as_str().unwrap_or("").to_string(), o["args"].as_array().cloned().unwrap_or_default().iter().map(hexf).collect()))
+      .collect();
+    execute(0, cid, &setup, pol_str(&init["pol"]), hexf(&init["phi"]), hexf(&init["theta"]), hexf(&init["lambda"]), hexf(&init["waist"]), &ops);
+  } else if v["kind"] == "snell" {
+    snell_at(cid, &crystal, pol_str(&v["pol"]), hexf(&v["ct"]), hexf(&v["cp"]), hexf(&v["lambda"]), hexf(&v["te"]), hexf(&v["bphi"]), "replay");
+  }
+}
+
+fn snell(rng: &mut Rng, cid: &str, crystal: &CrystalType, pol: PolarizationType, theta_e_deg: f64, bphi: f64, gen: &str) {
+  let ct = rng.range(0.35, 1.45);
+  let cp = rng.range(0.0, 2.0 * PI);
+  let (wlo, whi) = window(crystal);
+  let lambda = rng.range(wlo, whi);
+  snell_at(cid, crystal, pol, ct, cp, lambda, theta_e_deg * PI / 180.0, bphi, gen);
+}
+
+#[allow(clippy::too_many_arguments)]
+fn snell_at(cid: &str, crystal: &CrystalType, pol: PolarizationType, ct: f64, cp: f64, lambda: f64, te: f64, bphi: f64, gen: &str) {
+  let setup = setup_of(crystal, ct, cp);
+  let theta_e_deg = te * 180.0 / PI;
+  let beam0 = Beam::new(pol, bphi * RAD, 0.1 * RAD, lambda * M, 100e-6 * M);
+  let st = setup.clone();
+  let r = guarded(move || {
+    let mut b = beam0;
+    b.set_theta_external(te * RAD, &st);
+    let back = *(b.theta_external(&st) / RAD);
+    let ti = *(b.theta_internal() / RAD);
+    let n = *b.refractive_index(b.frequency(), &st);
+    let ind = *st.crystal.get_indices(b.vacuum_wavelength(), st.temperature);
+    let d = b.direction().into_inner();
+    (back, ti, n, [ind.x, ind.y, ind.z], [d.x, d.y, d.z], *(b.phi() / RAD), *(b.vacuum_wavelength() / M))
+  });
+  match r {
+    Ok((back, ti, n, ind, d, phi, weff)) => emit(json!({
+      "kind": "snell", "id": cid, "pol": pol_name(pol), "ct": fx(ct), "cp": fx(cp), "lambda": fx(lambda), "weff": fx(weff),
+      "bphi": fx(bphi), "phi": fx(phi), "te": fx(te), "te_deg": fx(theta_e_deg), "back": fx(back), "ti": fx(ti), "n": fx(n),
+      "ind": fxs(&ind), "dir": fxs(&d), "gen": gen,
+    })),
+    Err(msg) => emit(json!({
+      "kind": "snell", "id": cid, "pol": pol_name(pol), "ct": fx(ct), "cp": fx(cp), "lambda": fx(lambda),
+      "bphi": fx(bphi), "te": fx(te), "te_deg": fx(theta_e_deg), "panic": msg, "gen": gen,
+    })),
+  }
+}
+
+pub fn run(args: &[String]) {
+  let seed = arg_u64(args, 0, 1);
+  let n_hist = arg_u64(args, 1, 20) as usize;
+  let n_snell = arg_u64(args, 2, 3) as usize;
+  let mut rng = Rng::new(seed);
+  let crystals: Vec<(String, CrystalType)> = CrystalType::get_all_meta()
+    .iter()
+    .filter_map(|m| CrystalType::from_string(m.id).ok().map(|c| (m.id.to_string(), c)))
+    .collect();
+  if args.first().map(|s| s == "replay").unwrap_or(false) {
+    if let Some(js) = args.get(1) {
+      replay(js, &crystals);
+    }
+    return;
+  }
+  for id in 0..n_hist {
+    history(&mut rng, id, &crystals);
+  }
+  // ---- Snell round trips: crystals x polarizations x azimuths x external angles
+  let pols = [PolarizationType::Ordinary, PolarizationType::Extraordinary];
+  for (cid, crystal) in crystals.iter() {
+    for pol in pols {
+      for te in [0.0, 1e-6, 80.0, 79.999, 13.0, 45.0] {
+        let bphi = *rng.pick(&[0.0, PI / 2.0, PI, 1.0]);
+        snell(&mut rng, cid, crystal, pol, te, bphi, "fixed");
+      }
+      for _ in 0..n_snell {
+        let te = rng.range(0.0, 80.0);
+        let bphi = rng.range(0.0, 2.0 * PI);
+        snell(&mut rng, cid, crystal, pol, te, bphi, "rand");
+      }
+      // the refracted beam runs (almost) along an optic axis: crystal tilt = internal angle, azimuth pi (uniaxial crystals;
+      // for biaxial ones this is just another orientation)
+      for k in 0..1.max(n_snell / 3) {
+        let (wlo, whi) = window(crystal);
+        let lambda = rng.range(wlo, whi);
+        let ti = rng.range(0.05, 0.45);
+        let cp = rng.range(0.0, 2.0 * PI);
+        let offs = [0.0, 1e-9, 1e-7, 1e-5, 1e-3][k % 5];
+        let st0 = setup_of(crystal, ti, cp);
+        let b0 = Beam::new(pol, PI * RAD, ti * RAD, lambda * M, 100e-6 * M);
+        let n0 = *b0.refractive_index(b0.frequency(), &setup_of(crystal, ti + 0.01, cp));
+        let _ = st0;
+        let te = (n0 * ti.sin()).min(0.98).asin();
+        if te <= 80.0 * PI / 180.0 {
+          snell_at(cid, crystal, pol, ti + offs, cp, lambda, te, PI, "onaxis");
+        }
+      }
+      // small external angles (log-uniform)
+      for _ in 0..1.max(n_snell / 3) {
+        let te = rng.log_range(1e-5, 1.0);
+        let bphi = rng.range(0.0, 2.0 * PI);
+        snell(&mut rng, cid, crystal, pol, te, bphi, "small");
+      }
+    }
+  }
+  // ---- unit conversions
+  for i in 0..(10 + n_hist) {
+    let lambda = if i == 0 { 1550e-9 } else { rng.log_range(1e-8, 1e-3) };
+    let omega = *(vacuum_wavelength_to_frequency(lambda * M) / (RAD / S));
+    let back = *(frequency_to_vacuum_wavelength(omega * RAD / S) / M);
+    let om_in = rng.log_range(1e12, 1e17);
+    let l2 = *(frequency_to_vacuum_wavelength(om_in * RAD / S) / M);
+    let om_back = *(vacuum_wavelength_to_frequency(l2 * M) / (RAD / S));
+    let c = rng.range(-273.0, 1000.0);
+    let k = *(from_celsius_to_kelvin(c) / K);
+    let c_back = from_kelvin_to_celsius(k * K);
+    let k_in = rng.range(0.0, 2000.0);
+    let k_back = *(from_celsius_to_kelvin(from_kelvin_to_celsius(k_in * K)) / K);
+    let x = rng.log_range(1e-9, 1e3);
+    let (sig, w, fw) = (fwhm_to_sigma(x), fwhm_to_waist(x), waist_to_fwhm(fwhm_to_waist(x)));
+    let w2 = fwhm_to_waist(waist_to_fwhm(x));
+    emit(json!({
+      "kind": "unit", "lambda": fx(lambda), "omega": fx(omega), "lambda_back": fx(back),
+      "omega_in": fx(om_in), "lambda2": fx(l2), "omega_back": fx(om_back),
+      "c": fx(c), "k": fx(k), "c_back": fx(c_back), "k_in": fx(k_in), "k_back": fx(k_back),
+      "x": fx(x), "sigma": fx(sig), "waist": fx(w), "fwhm_back": fx(fw), "waist_back": fx(w2),
+    }));
+  }
+  // ---- normalisation functions on their own
+  for _ in 0..(20 + 2 * n_hist) {
+    let a = angle_arg(&mut rng);
+    emit(json!({"kind": "norm", "x": fx(a), "u": fx(*(normalize_angle(a * RAD) / RAD)), "s": fx(*(normalize_angle_signed(a * RAD) / RAD))}));
+  }
+  // ---- automatic waist position
+  for (cid, crystal) in crystals.iter() {
+    for pol in pols {
+      for _ in 0..2.max(n_snell / 2) {
+        let ct = rng.range(0.2, 1.5);
+        let cp = rng.range(0.0, 2.0 * PI);
+        let mut setup = setup_of(crystal, ct, cp);
+        let len = rng.log_range(1e-4, 5e-2);
+        setup.length = len * M;
+        let (wlo, whi) = window(crystal);
+        let lambda = rng.range(wlo, whi);
+        let z = guarded({ let st = setup.clone(); move || *(st.optimal_waist_position(lambda * M, pol) / M) });
+        let nz = guarded({ let st = setup.clone(); move || *st.index_along(lambda * M, Unit::new_normalize(Vector3::z()), pol) });
+        emit(json!({"kind": "waist", "id": cid, "pol": pol_name(pol), "ct": fx(ct), "cp": fx(cp), "len": fx(len), "lambda": fx(lambda),
+                    "z": z.ok().map(fx), "nz": nz.ok().map(fx)}));
+      }
+    }
+  }
+}
+
